@@ -272,19 +272,32 @@ class Item:
             self._add(b, 'wrap_close', 0, ' }')
         return self
 
-    def closure(self, anchor, params, spec, occ=1):
+    def closure(self, anchor, params, spec, occ=1, pat_var=None, tail=None, tail_name='cr__'):
         """desugaring 3: closure `|x| body` => `|x: T| -> (r: U) requires .. ensures .. { body }`.
         `anchor` is the text `|x|` (parameter list as written); `params` the ascribed parameter list
         with return type, e.g. `|n: &Rc<Node<V>>| -> (r: usize)`.  The closure body is the expression
         following the anchor; it is wrapped in braces (it must extend to the `)` that closes the call
-        the closure is an argument of, or already be a block)."""
+        the closure is an argument of, or already be a block).
+        pat_var: desugaring 1 for a closure with ONE pattern parameter: `|(k, _)| body` => `|p: T| { let (k, _) = p; body }`
+                 (`params` must name the parameter `pat_var`; the `let` is generated from the anchor's own pattern text).
+        tail:    desugaring 5 inside the closure: `body` => `let cr__ = body; <ghost> cr__` (ghost-only statements)."""
         pos = self._anchor(anchor, occ, hard=True, what='closure')
         a = pos + len(anchor)
+        lets = ''
+        if pat_var is not None:
+            pat = anchor.strip()[1:-1].strip()
+            if not re.match(r'^[\(\[][\w\s,]*[\)\]]$', pat) or not re.search(r'\b%s\s*:' % re.escape(pat_var), params):
+                raise LostAnchor(self.name, 'closure %r: not a single tuple/array pattern parameter' % anchor, True)
+            lets = 'let %s = %s; ' % (pat, pat_var)
+        if tail is not None:
+            check_ghost_statements(tail, self.name)
         # body extent
         j = a
         while self.orig[j].isspace():
             j += 1
         if self.orig[j] == '{':
+            if lets or tail is not None:
+                raise LostAnchor(self.name, 'closure %r: pattern / tail desugaring of a block body is not supported' % anchor, True)
             end = rp.match_close(self.orig, self.mask, j) + 1
             self._add(pos, 'clos', len(anchor), params + '\n            ' + spec.strip() + '\n          ')
         else:
@@ -304,8 +317,8 @@ class Item:
                         break
                 k += 1
             end = k
-            self._add(pos, 'clos', len(anchor), params + '\n            ' + spec.strip() + '\n          { ')
-            self._add(end, 'wrap_close', 0, ' }')
+            self._add(pos, 'clos', len(anchor), params + '\n            ' + spec.strip() + '\n          { ' + lets + ('let %s = ' % tail_name if tail is not None else ''))
+            self._add(end, 'wrap_close', 0, (';\n            ' + tail.strip() + '\n            ' + tail_name if tail is not None else '') + ' }')
         return self
 
     def pattern_params(self):
@@ -587,7 +600,7 @@ def _for_loop(self, n, spec, ghost_iter='gi', pat_var='p__'):
         raise LostAnchor(self.name, 'loop #%d is not a for loop' % n, True)
     b = rp.next_open_brace(self.orig, self.mask, found.end())
     head = self.orig[found.end():b]
-    mm = re.match(r'(\s*)(\[[^\]]*\]|\w+)(\s+in\s+)', head)
+    mm = re.match(r'(\s*)(\[[^\]]*\]|\([\w\s,]*\)|\w+)(\s+in\s+)', head)
     if not mm:
         raise LostAnchor(self.name, 'for loop #%d: cannot parse binding' % n, True)
     pat = mm.group(2)
@@ -598,6 +611,10 @@ def _for_loop(self, n, spec, ghost_iter='gi', pat_var='p__'):
         names = [x.strip() for x in pat[1:-1].split(',') if x.strip()]
         self._add(pstart, 'pat', len(pat), pat_var)
         lets = ' '.join('let %s = %s[%d];' % (nm, pat_var, k) for k, nm in enumerate(names) if nm != '_')
+    elif pat.startswith('('):
+        # tuple pattern: `for (k, v) in E {` => `for p__ in gi: E { let (k, v) = p__;`
+        self._add(pstart, 'pat', len(pat), pat_var)
+        lets = 'let %s = %s;' % (pat, pat_var)
     self._add(in_end, 'ins', 0, ghost_iter + ': ')
     self._add(b, 'ins', 0, '\n            ' + spec.strip() + '\n        ')
     if lets:
@@ -606,3 +623,40 @@ def _for_loop(self, n, spec, ghost_iter='gi', pat_var='p__'):
 
 
 Item.for_loop = _for_loop
+
+
+def _loop_brace(self, n):
+    rx = re.compile(r'\b(while|for|loop)\b')
+    pos = self.body_open + 1
+    found = None
+    for _ in range(n):
+        m = rp.find_code_re(self.orig, self.mask, rx, pos)
+        if not m:
+            raise LostAnchor(self.name, 'loop #%d not found' % n, True)
+        found = m
+        pos = m.end()
+    b = rp.next_open_brace(self.orig, self.mask, found.end())
+    if b < 0:
+        raise LostAnchor(self.name, 'loop #%d has no body' % n, True)
+    return b
+
+
+def _loop_body_start(self, n, ghost):
+    """ghost statements at the start of the body of the n-th loop (after the pattern lets of for_loop, if called after it)"""
+    check_ghost_statements(ghost, self.name)
+    b = _loop_brace(self, n)
+    self._add(b + 1, 'ins', 0, '\n            ' + ghost.strip())
+    return self
+
+
+def _loop_body_end(self, n, ghost):
+    """ghost statements right before the closing brace of the body of the n-th loop"""
+    check_ghost_statements(ghost, self.name)
+    b = _loop_brace(self, n)
+    e = rp.match_close(self.orig, self.mask, b)
+    self._add(e, 'ins', 0, ghost.strip() + '\n        ')
+    return self
+
+
+Item.loop_body_start = _loop_body_start
+Item.loop_body_end = _loop_body_end
